@@ -36,6 +36,35 @@ pub fn valid_file(k: i32) -> Vec<u8> {
     f
 }
 
+/// structurally well-formed version-2 files that do not describe a valid zone
+pub fn invalid_file(kind: u8) -> Vec<u8> {
+    let block = |wide: bool| -> Vec<u8> {
+        let mut f = vec![];
+        f.extend(b"TZif2");
+        f.extend([0u8; 15]);
+        let timecnt = if kind == 0 { 0u32 } else { 1 };
+        for c in [0u32, 0, 0, timecnt, 1, 4] {
+            f.extend(c.to_be_bytes());
+        }
+        if timecnt == 1 {
+            if wide {
+                f.extend(1000i64.to_be_bytes());
+            } else {
+                f.extend(1000i32.to_be_bytes());
+            }
+            f.push(if kind == 1 { 5 } else { 0 }); // kind 1: transition to type #5 of 1
+        }
+        f.extend(3600i32.to_be_bytes());
+        f.extend([0, 0]);
+        f.extend(if kind == 0 { b"AB\0\0" } else { b"FIL\0" }); // kind 0: designation of 2 characters
+        f
+    };
+    let mut f = block(false);
+    f.extend(block(true));
+    f.extend(if kind == 2 { &b"\nXXX5\n"[..] } else { &b"\n\n"[..] }); // kind 2: footer contradicts the last transition
+    f
+}
+
 fn reader(path: &str) -> Result<Vec<u8>, Box<dyn std::error::Error + Send + Sync + 'static>> {
     LOG.with(|l| l.borrow_mut().push(path.to_string()));
     match VFS.with(|v| v.borrow().get(path).copied()).unwrap_or(Entry::Absent) {
@@ -43,6 +72,7 @@ fn reader(path: &str) -> Result<Vec<u8>, Box<dyn std::error::Error + Send + Sync
         Entry::Valid(k) => Ok(valid_file(k)),
         Entry::Garbage => Ok(b"this is not a TZif file".to_vec()),
         Entry::Empty => Ok(Vec::new()),
+        Entry::Invalid(k) => Ok(invalid_file(k)),
     }
 }
 
@@ -162,7 +192,22 @@ fn check_config(l: &mut Local, value: &str, dirs: &[&str], assignment: &[(String
         l.violation("TZ resolution: the paths opened differ from tzset(3)'s order", input(), format!("{:?}", exp.reads), format!("{:?}", reads));
     }
     let obs = classify(&got);
-    if exp.outcome != Outcome::Unspec {
+    // the entry that was decoded (the last path read), when it is a structurally well-formed but invalid file:
+    // the result must be exactly the decoder's own error for that content - no fallback to the description
+    let decoded_invalid = exp.reads.last().map(|p| fs(p)).and_then(|e| if let Entry::Invalid(k) = e { Some(k) } else { None });
+    if let (Some(k), Outcome::ErrDecode) = (decoded_invalid, &exp.outcome) {
+        let want = match tz::TimeZone::from_tz_data(&invalid_file(k)) {
+            Err(e) => crate::facade::tz_err(&e),
+            Ok(_) => {
+                l.harness_errors.push(format!("invalid_file({}) is accepted by the decoder", k));
+                return;
+            }
+        };
+        match &got {
+            Err(e) if top_err(e) == want => l.class("invalid_zone_in_a_well_formed_file_no_fallback"),
+            other => l.violation("TZ resolution: a file that was read but does not describe a valid zone must give the decoder's error, with no fallback", input(), format!("Err({:?})", want), format!("{:?}", other.as_ref().map(|_| "Ok(zone)").map_err(|e| top_err(e)))),
+        }
+    } else if exp.outcome != Outcome::Unspec {
         let same = match (&exp.outcome, &obs) {
             (Outcome::ZoneFromDescription(a), Outcome::ZoneFromDescription(b)) => a == b,
             (a, b) => a == b,
@@ -249,6 +294,7 @@ pub fn run(ctx: &Ctx) -> Report {
         "whitespace_stripped_before_description",
         "unicode_only_whitespace_not_stripped",
         "parse_local_shorthand",
+        "invalid_zone_in_a_well_formed_file_no_fallback",
         "no_read_at_all",
     ];
     if let Err(e) = crate::mon::c03::self_tests() {
@@ -262,21 +308,22 @@ pub fn run(ctx: &Ctx) -> Report {
         let cands = candidates(value, dirs);
         let k = cands.len();
         let mut n = 0u64;
-        // all assignments of {absent, valid, garbage, empty} to the candidate paths
-        let combos = 4u64.pow(k as u32);
+        // all assignments of {absent, valid, garbage, empty, invalid zone} to the candidate paths
+        let combos = 5u64.pow(k as u32);
         for c in 0..combos {
             let mut c2 = c;
             let assignment: Vec<(String, Entry)> = cands
                 .iter()
                 .enumerate()
                 .map(|(j, p)| {
-                    let e = match c2 % 4 {
+                    let e = match c2 % 5 {
                         0 => Entry::Absent,
                         1 => Entry::Valid(60 * (j as i32 + 1)),
                         2 => Entry::Garbage,
-                        _ => Entry::Empty,
+                        3 => Entry::Empty,
+                        _ => Entry::Invalid(((c / 5 + j as u64 + i) % 3) as u8),
                     };
-                    c2 /= 4;
+                    c2 /= 5;
                     (p.clone(), e)
                 })
                 .collect();
